@@ -573,6 +573,8 @@ func (m *Manager) rotateWAL() error {
 	// as rotating, so no further append can be assigned a number from it.
 	if currentWAL != nil {
 		newWAL.UpdateNextSequence(currentWAL.GetNextSequence())
+		// ... and keep whoever observes the log (replication) attached to it
+		currentWAL.CarryObserversTo(newWAL)
 	}
 
 	// Store the old WAL for proper closure
